@@ -235,6 +235,83 @@ def run(ctx):
             except Exception as ex:
                 ctx.exception("scalar-path", f"{name}: np.float32 scalar input {z!r} raised", ex, {"copy": name, "form": "np.float32"})
 
+        # ---- memory layout and buffer history: the value at a position depends on the number stored there,
+        #      not on the array's strides / order / writability, nor on what the same array object held at
+        #      the previous call (seeded C19-15: flat views of a Fortran-ordered result; C19-16: layer
+        #      index memoised on the identity of the input array)
+        lay_rng = ctx.subrng("c19-layout", name)
+        zl = np.concatenate([lay_rng.uniform(0.0, 120.0, 116), np.array(zs[:4])]).reshape(10, 12)
+        zl3 = lay_rng.uniform(0.0, 120.0, 2 * 3 * 4).reshape(2, 3, 4)
+        big = lay_rng.uniform(0.0, 120.0, (20, 24))
+        ro = zl.copy()
+        ro.setflags(write=False)
+        layouts = {
+            "C 2-d": zl,
+            "Fortran 2-d": np.asfortranarray(zl),
+            "transposed view": zl.T,
+            "strided 2-d view": big[::2, ::2],
+            "negative-stride view": zl[::-1, ::-1],
+            "3-d permuted axes": zl3.transpose(2, 0, 1),
+            "3-d Fortran": np.asfortranarray(zl3),
+            "broadcast view": np.broadcast_to(zl[0], (5, 12)),
+            "read-only": ro,
+            "strided 1-d view": big.ravel()[::3],
+        }
+        for lname, arr in layouts.items():
+            ctx.count("layout", arr.size)
+            try:
+                flat = np.ascontiguousarray(arr).ravel()
+                wantP = np.asarray(pz(flat.copy())).reshape(arr.shape)
+                gotP = np.asarray(pz(arr))
+                wantZ = np.asarray(zp(np.ascontiguousarray(wantP).ravel().copy())).reshape(arr.shape)
+                pin = wantP.copy(order="F") if "Fortran" in lname else (np.ascontiguousarray(wantP.T).T if "transposed" in lname or "permuted" in lname else wantP)
+                gotZ = np.asarray(zp(pin))
+                if gotP.shape != arr.shape or not np.array_equal(gotP, wantP):
+                    nbad = int(np.sum(gotP != wantP)) if gotP.shape == arr.shape else arr.size
+                    ctx.violation("layout", f"{name}: pressure of a {lname} altitude array {arr.shape} differs from the values of the same numbers as a fresh 1-d array at {nbad} of {arr.size} positions (e.g. {np.asarray(gotP).ravel()[0]!r} vs {wantP.ravel()[0]!r})", {"copy": name, "layout": lname})
+                if gotZ.shape != arr.shape or not np.array_equal(gotZ, wantZ):
+                    ctx.violation("layout", f"{name}: altitude of a {lname} pressure array {arr.shape} differs from the values of the same numbers as a fresh 1-d array", {"copy": name, "layout": lname})
+            except PostBroken:
+                ctx.violation("layout", f"{name}: {lname} input: result shape differs from input shape", {"copy": name, "layout": lname})
+            except Exception as ex:
+                ctx.exception("layout", f"{name}: {lname} input raised", ex, {"copy": name, "layout": lname})
+        for direction, fn, lohi in (("pressure_from_altitude", pz, (0.0, 120.0)), ("altitude_from_pressure", zp, (math.log(max(p_top, 1e-2)), math.log(101325.0)))):
+            rounds = []
+            for rnd in range(6):
+                vals = lay_rng.uniform(lohi[0], lohi[1], 101)
+                if direction == "altitude_from_pressure":
+                    vals = np.exp(vals)
+                if rnd % 2:
+                    vals = np.sort(vals)[::-1].copy()
+                if rnd == 3:
+                    vals = rounds[-1] * (0.1 if direction == "altitude_from_pressure" else 0.5)
+                rounds.append(vals)
+            try:
+                # the expected values first, each from its own fresh array, so that the calls on the re-used
+                # array below are consecutive calls of this function
+                wants = [np.asarray(fn(v.copy())) for v in rounds]
+            except Exception as ex:
+                ctx.exception("buffer-history", f"{name}: {direction} raised", ex, {"copy": name, "direction": direction})
+                continue
+            buf = np.empty(101)
+            for rnd, (vals, want) in enumerate(zip(rounds, wants)):
+                if rnd == 3:
+                    buf *= 0.1 if direction == "altitude_from_pressure" else 0.5  # in-place arithmetic, as a caller's loop would
+                else:
+                    buf[:] = vals  # the same array object, new contents
+                ctx.count("buffer-history", 101)
+                try:
+                    got = np.asarray(fn(buf))
+                    if not np.array_equal(got, want):
+                        ctx.violation("buffer-history", f"{name}: {direction}: call #{rnd + 1} with the same array object refilled in place differs from a fresh array holding the same numbers at {int(np.sum(got != want))} of 101 positions", {"copy": name, "direction": direction, "round": rnd})
+                        break
+                    if not np.array_equal(buf, vals):
+                        ctx.violation("buffer-history", f"{name}: {direction}: the input array was modified by the call", {"copy": name, "direction": direction})
+                        break
+                except Exception as ex:
+                    ctx.exception("buffer-history", f"{name}: {direction} on a re-used array raised", ex, {"copy": name, "direction": direction})
+                    break
+
         # ---- pressures that are not doubles: the shipped cloud-top-pressure maps are float32, and
         #      whole-number pressures come as integers. The altitude of such a pressure is the altitude of
         #      the same number as a double (1e-6 km), and P -> z -> P closes to 1e-6 relative.
@@ -308,7 +385,7 @@ def run(ctx):
         repotests.run(ctx, "C19")
     ctx.count("contracts", ncontract["n"])
     ctx.observe("boundary_switch_altitudes_km", zb)
-    for m in ("dtype", "roundtrip-z", "roundtrip-p", "positive", "monotone", "endpoints", "scalar-path", "copies", "abs-ref", "contracts"):
+    for m in ("dtype", "roundtrip-z", "roundtrip-p", "positive", "monotone", "endpoints", "scalar-path", "copies", "abs-ref", "contracts", "layout", "buffer-history"):
         ctx.require(m)
     ctx.distinct.add_rows(z_all)
     ctx.distinct.add_rows(p_all)
